@@ -69,6 +69,17 @@ structure DebugLoopFacts where
   noPosSkips : Bool
   /-- enterCall increments and exitCall decrements fDepth -/
   depthOps : List String
+  /-- condition of the break case of `(*Debugger).exec`: "marked" (`n.shouldBreak()`) or
+      "marked-entering-line" (`n.shouldBreak() && (n.debug.breakOnCall || dbg.entersLine(f.debug.prev, n))`) -/
+  breakCond : String
+  /-- `(*Debugger).exec` begins by recording the previous step of the frame in `f.debug.prev` -/
+  prevUpdate : Bool
+  /-- line branch of SetBreakpoints: "reachable-steps" or "first-candidate" -/
+  placement : String
+  /-- kinds that `(*node).isStep` accepts whatever the action -/
+  stepKinds : List String
+  /-- kinds whose entry points `cfgNodes` visits besides `root.start` -/
+  cfgKinds : List String
   deriving DecidableEq, Repr
 
 /-- the part of the facts the executable model is parametrised by -/
@@ -84,6 +95,16 @@ structure LoopFacts where
   origIsExec : Bool
   overCmp : Cmp
   outCmp : Cmp
+  /-- a line breakpoint is reported only when the frame enters the line (0a3a691) -/
+  enterRule : Bool := true
+  /-- the previous step of the frame is recorded -/
+  tracksPrev : Bool := true
+  /-- SetBreakpoints marks every reachable step of a requested line (else: the first candidate) -/
+  placeSteps : Bool := true
+  /-- kinds that are steps whatever their action (`break`, `continue`, `fallthrough`, `goto`) -/
+  jumpKinds : List String := []
+  /-- kinds whose entry points cfgNodes visits -/
+  cfgKinds : List String := []
   deriving DecidableEq, Repr
 
 def idxOf (s : String) : List String → Nat
@@ -97,7 +118,12 @@ def LoopFacts.ofRaw (r : DebugLoopFacts) : LoopFacts :=
     forward := r.acceptsForward,
     origIsExec := decide (r.origCmp = "isExecNode"),
     overCmp := Cmp.ofString r.overCmp,
-    outCmp := Cmp.ofString r.outCmp }
+    outCmp := Cmp.ofString r.outCmp,
+    enterRule := decide (r.breakCond = "marked-entering-line"),
+    tracksPrev := r.prevUpdate,
+    placeSteps := decide (r.placement = "reachable-steps"),
+    jumpKinds := r.stepKinds,
+    cfgKinds := r.cfgKinds }
 
 /-! ### graphs -/
 
@@ -120,6 +146,8 @@ structure Node where
   /-- name, for a function declaration -/
   func : Option String := none
   start : Option Nat := none
+  /-- `n.kind` -/
+  kind : String := ""
   deriving Repr, DecidableEq
 
 abbrev Graph := Array Node
@@ -133,6 +161,8 @@ def Graph.line (g : Graph) (i : Nat) : Nat := match g[i]? with | some n => n.lin
 def Graph.posValid (g : Graph) (i : Nat) : Bool := match g[i]? with | some n => n.posValid | none => false
 def Graph.parent (g : Graph) (i : Nat) : Option Nat := match g[i]? with | some n => n.parent | none => none
 def Graph.children (g : Graph) (i : Nat) : List Nat := match g[i]? with | some n => n.children | none => []
+def Graph.start (g : Graph) (i : Nat) : Option Nat := match g[i]? with | some n => n.start | none => none
+def Graph.kind (g : Graph) (i : Nat) : String := match g[i]? with | some n => n.kind | none => ""
 
 /-- a generated closure: the node it executes, the identity of its code, the identity of the
     closure object -/
@@ -356,6 +386,24 @@ def rederive (F : LoopFacts) (g : Graph) (start : Nat) (m : Option Nat) (c : Clo
     | some p => probe g i p
     | none => orig F g i c
 
+/-! ### steps and lines (0a3a691) -/
+
+/-- `(*node).isStep`: the node, when it executes, is a step of the program at a source position:
+    it has an action, or it is a statement that only transfers control, or a plain operand placed
+    in the control flow (`n.start == n && len(n.child) == 0`: the tag of a switch). The other nodes
+    that execute are the join points of compound statements. -/
+def isStep (F : LoopFacts) (g : Graph) (i : Nat) : Bool :=
+  match g[i]? with
+  | some n => n.posValid && (F.jumpKinds.contains n.kind || !n.isNop || (n.start == some i && n.children.isEmpty))
+  | none => false
+
+/-- `(*Debugger).entersLine(prev, n)`: executing `n` after `prev` in the same frame enters the
+    line of `n` -/
+def entersLine (g : Graph) (prev : Option Nat) (i : Nat) : Bool :=
+  match prev with
+  | none => true
+  | some p => p == i || g.line p != g.line i
+
 /-! ### the debug loop -/
 
 structure DFrame where
@@ -365,14 +413,30 @@ structure DFrame where
   start : Nat
   /-- `m` -/
   m : Option Nat
+  /-- `f.debug.prev` as the next call of `dbg.exec` for this frame will see it: the last step this
+      activation executed (every activation of the model runs on a frame of its own) -/
+  prev : Option Nat := none
   deriving DecidableEq, Repr
 
 structure Setup where
   F : LoopFacts
   g : Graph
+  /-- `n.debug.breakOnLine` -/
   marked : Nat → Bool
+  /-- `n.debug.breakOnCall` -/
+  markedCall : Nat → Bool
   /-- reference debugger: it is told which node owns the closure about to run -/
   ideal : Bool := false
+
+/-- the execution as the line-level reference reads it -/
+inductive LogItem
+  /-- `runCfg` is entered: a new activation, on a frame of its own -/
+  | enter
+  /-- the closure of node `o` starts -/
+  | exec (o : Nat)
+  /-- the innermost activation ends -/
+  | leave
+  deriving DecidableEq, Repr
 
 structure DCfg (σ : Type) where
   st : σ
@@ -383,41 +447,60 @@ structure DCfg (σ : Type) where
   cmds : List Cmd
   /-- most recent first -/
   events : List Event
+  /-- ghost: what happened, most recent first (read by the reference `refRun`) -/
+  log : List LogItem := []
 
 def Setup.toIdeal (S : Setup) : Setup := { S with ideal := true }
 
 def Setup.m (S : Setup) (fr : DFrame) : Option Nat := if S.ideal then some fr.cur.owner else fr.m
 
+/-- the condition of the break case for node `i`, the previous step of the frame being `prev`:
+    `n.shouldBreak() && (n.debug.breakOnCall || dbg.entersLine(f.debug.prev, n))` -/
+def Setup.hit (S : Setup) (prev : Option Nat) (i : Nat) : Bool :=
+  S.markedCall i || (S.marked i && (!S.F.enterRule || entersLine S.g prev i))
+
+/-- the beginning of `dbg.exec`, applied when the closure consulted for has run: the node the
+    frame was consulted with becomes its previous step, if it is a step -/
+def Setup.bumpPrev (S : Setup) (prev : Option Nat) (m : Option Nat) : Option Nat :=
+  match m with
+  | some i => if S.F.tracksPrev && isStep S.F S.g i then some i else prev
+  | none => prev
+
+def Setup.bump (S : Setup) (fr : DFrame) : DFrame := { fr with prev := S.bumpPrev fr.prev (S.m fr) }
+
 /-- call `dbg.exec(m, f)` for the innermost activation -/
 def consult (S : Setup) (d : DCfg σ) (fr : DFrame) : Bool × DCfg σ :=
-  let o := dbgExec S.F S.g S.marked d.dbg (S.m fr) d.cmds d.trace.length
+  let o := dbgExec S.F S.g (S.hit fr.prev) d.dbg (S.m fr) d.cmds d.trace.length
   (o.stop, { d with dbg := o.dbg, cmds := o.cmds,
                     events := match o.ev with | some e => e :: d.events | none => d.events })
 
 /-- leave the innermost activation (`break`/end of the loop; deferred `exitCall`) -/
 def leave (d : DCfg σ) (rest : List DFrame) : DCfg σ :=
-  { d with stack := rest, dbg := d.dbg.exit, ctl := .resume }
+  { d with stack := rest, dbg := d.dbg.exit, ctl := .resume, log := .leave :: d.log }
 
 def dapply (S : Setup) (d : DCfg σ) (a : Act) : DCfg σ :=
   match d.stack with
   | [] =>
     match a with
     | .next _ => { d with ctl := .halt false }
-    | .call s (some e) => { d with stack := [⟨e, s, some s⟩], dbg := d.dbg.enter, ctl := .start }
+    | .call s (some e) => { d with stack := [⟨e, s, some s, none⟩], dbg := d.dbg.enter, ctl := .start, log := .enter :: d.log }
     | .call _ none => { d with ctl := .resume }
     | .panic => { d with ctl := .halt true }
   | fr :: rest =>
+    -- the closure of `fr` has been consulted for and has run: its node is the frame's previous step
+    let fb := S.bump fr
     match a with
     | .next none => leave d rest
     | .next (some c') =>
       if S.F.execFirst then
         let r := consult S d fr
         if r.1 then leave r.2 rest
-        else { r.2 with stack := ⟨c', fr.start, rederive S.F S.g fr.start fr.m c'⟩ :: rest, ctl := .start }
-      else { d with stack := ⟨c', fr.start, rederive S.F S.g fr.start fr.m c'⟩ :: rest, ctl := .start }
-    | .call s (some e) => { d with stack := ⟨e, s, some s⟩ :: fr :: rest, dbg := d.dbg.enter, ctl := .start }
-    | .call _ none => { d with ctl := .resume }
-    | .panic => { d with ctl := .halt true }
+        else { r.2 with stack := ⟨c', fr.start, rederive S.F S.g fr.start fr.m c', fb.prev⟩ :: rest, ctl := .start }
+      else { d with stack := ⟨c', fr.start, rederive S.F S.g fr.start fr.m c', fb.prev⟩ :: rest, ctl := .start }
+    | .call s (some e) =>
+      { d with stack := ⟨e, s, some s, none⟩ :: fb :: rest, dbg := d.dbg.enter, ctl := .start, log := .enter :: d.log }
+    | .call _ none => { d with stack := fb :: rest, ctl := .resume }
+    | .panic => { d with stack := fb :: rest, ctl := .halt true }
 
 def dstep (S : Setup) (P : Prog σ) (d : DCfg σ) : DCfg σ :=
   match d.ctl with
@@ -432,13 +515,13 @@ def dstep (S : Setup) (P : Prog σ) (d : DCfg σ) : DCfg σ :=
     | fr :: rest =>
       if S.F.execFirst then
         let r := P.step d.st fr.cur false
-        dapply S { d with st := r.1, trace := fr.cur :: d.trace } r.2
+        dapply S { d with st := r.1, trace := fr.cur :: d.trace, log := .exec fr.cur.owner :: d.log } r.2
       else
         let q := consult S d fr
         if q.1 then leave q.2 rest
         else
           let r := P.step d.st fr.cur false
-          dapply S { q.2 with st := r.1, trace := fr.cur :: d.trace } r.2
+          dapply S { q.2 with st := r.1, trace := fr.cur :: d.trace, log := .exec fr.cur.owner :: d.log } r.2
 
 def drun (S : Setup) (P : Prog σ) : Nat → DCfg σ → DCfg σ
   | 0, d => d
@@ -453,7 +536,7 @@ def Dbg.init : Dbg := ⟨.entry, 0, 0⟩
 def DCfg.init (st : σ) (cmds : List Cmd) : DCfg σ :=
   { st := st, stack := [], ctl := .resume, trace := [],
     dbg := match cmds with | [] => Dbg.init.apply .cont | c :: _ => Dbg.init.apply c,
-    cmds := cmds.tail, events := [] }
+    cmds := cmds.tail, events := [], log := [] }
 
 def PCfg.init (st : σ) : PCfg σ := ⟨st, [], .resume, []⟩
 
@@ -471,6 +554,10 @@ def preorder (g : Graph) : Nat → List Nat → List Nat
   | 0, _ => []
   | _, [] => []
   | fuel + 1, i :: rest => i :: preorder g fuel (g.children i ++ rest)
+
+/-- enough for `(*node).Walk` from the root: a node that is the child of several nodes (the instances
+    of a generic function share parts) is walked once per parent -/
+def walkFuel (g : Graph) : Nat := g.size * g.size + g.size + 1
 
 /-- a node a line breakpoint can sit on: valid position, an action, a closure -/
 def lineCandidate (g : Graph) (i : Nat) : Bool :=
@@ -500,10 +587,95 @@ def placeFuncs (g : Graph) (names : List String) : List Nat → List String → 
 def reqLines (rs : List BpReq) : List Nat := rs.filterMap fun | .line l => some l | _ => none
 def reqFuncs (rs : List BpReq) : List String := rs.filterMap fun | .func f => some f | _ => none
 
-/-- nodes that break (`breakOnLine` or `breakOnCall`) after `SetBreakpoints(root, requests…)` -/
+/-- nodes that break (`breakOnLine` or `breakOnCall`) after `SetBreakpoints(root, requests…)` of the
+    code before 0a3a691 -/
 def place (g : Graph) (root : Nat) (rs : List BpReq) : List Nat :=
-  let order := preorder g (g.size + 1) [root]
+  let order := preorder g (walkFuel g) [root]
   placeLines g (reqLines rs) order [] ++ placeFuncs g (reqFuncs rs) order []
+
+/-! #### since 0a3a691: every reachable step of a requested line -/
+
+def optStart (g : Graph) (i : Nat) : List Nat := match g.start i with | some s => [s] | none => []
+
+/-- the entry points `cfgNodes(root)` starts from: the body of every function (declaration or
+    literal: `n.anc.child[3].start` for the `funcType` node `n` of a node with four children), the
+    start of every constant or variable declaration and of each of its specifications, and
+    `root.start`. (The clause entries of `select` statements are not modelled.) -/
+def cfgEntries (F : LoopFacts) (g : Graph) (order : List Nat) (root : Nat) : List Nat :=
+  order.flatMap (fun i =>
+    let k := g.kind i
+    if F.cfgKinds.contains k then
+      if k = "funcType" then
+        match g.parent i with
+        | some p =>
+          match g.children p with
+          | [_, _, _, b] => optStart g b
+          | _ => []
+        | none => []
+      else optStart g i ++ (g.children i).flatMap (optStart g)
+    else []) ++ optStart g root
+
+def succs (g : Graph) (i : Nat) : List Nat :=
+  (match g.tnext i with | some t => [t] | none => []) ++ (match g.fnext i with | some f => [f] | none => [])
+
+/-- the nodes reachable from `todo` along tnext / fnext (`seen`: reached so far) -/
+def cfgReach (g : Graph) : Nat → List Nat → List Nat → List Nat
+  | 0, _, seen => seen
+  | _, [], seen => seen
+  | fuel + 1, i :: todo, seen =>
+    if seen.contains i then cfgReach g fuel todo seen else cfgReach g fuel (succs g i ++ todo) (i :: seen)
+
+/-- `cfgNodes(root)` -/
+def cfgNodes (F : LoopFacts) (g : Graph) (root : Nat) : List Nat :=
+  let order := preorder g (walkFuel g) [root]
+  let entries := cfgEntries F g order root
+  cfgReach g (3 * g.size + entries.length + 1) entries []
+
+/-- the nodes `SetBreakpoints` marks for line requests: every step of a requested line that is on a
+    path of a control-flow graph, in walk order -/
+def placeSteps (F : LoopFacts) (g : Graph) (root : Nat) (lines : List Nat) : List Nat :=
+  let reach := cfgNodes F g root
+  (preorder g (walkFuel g) [root]).filter fun i => isStep F g i && reach.contains i && lines.contains (g.line i)
+
+/-- nodes with `breakOnLine` after `SetBreakpoints(root, requests…)` -/
+def placeLine (F : LoopFacts) (g : Graph) (root : Nat) (rs : List BpReq) : List Nat :=
+  if F.placeSteps then placeSteps F g root (reqLines rs)
+  else placeLines g (reqLines rs) (preorder g (walkFuel g) [root]) []
+
+/-- nodes with `breakOnCall` -/
+def placeCall (g : Graph) (root : Nat) (rs : List BpReq) : List Nat :=
+  placeFuncs g (reqFuncs rs) (preorder g (walkFuel g) [root]) []
+
+/-- `Breakpoint.Valid` of a line request: some node carries it -/
+def lineValid (g : Graph) (marks : List Nat) (l : Nat) : Bool := marks.any fun i => g.line i == l
+
+/-! ### the line-level reference
+
+It is told which node executes (the log) and which nodes carry a breakpoint; per activation it
+remembers the last step executed. **A breakpoint is reported when the activation enters the line of
+a marked node — its first step, a step after a step of another line, or the same node again — before
+that node runs, and not again while the activation stays on the line**; a function breakpoint is
+reported whenever its node is about to run. -/
+
+structure RefSt where
+  /-- last step of every live activation, innermost first -/
+  stack : List (Option Nat)
+  /-- nodes of the break stops, most recent first -/
+  out : List (Option Nat)
+  deriving DecidableEq, Repr
+
+def refStep (S : Setup) (st : RefSt) : LogItem → RefSt
+  | .enter => { st with stack := none :: st.stack }
+  | .leave => { st with stack := st.stack.tail }
+  | .exec o =>
+    match st.stack with
+    | [] => st
+    | p :: rest =>
+      { stack := S.bumpPrev p (some o) :: rest,
+        out := if S.g.posValid o && S.hit p o then some o :: st.out else st.out }
+
+/-- the reference run over a log (most recent item first) -/
+def refRun (S : Setup) (log : List LogItem) : RefSt := log.foldr (fun it st => refStep S st it) ⟨[], []⟩
 
 /-! ### hypotheses of the tracking theorems -/
 
